@@ -52,6 +52,29 @@ def _ac_may_complete(attack, auth):
     return False                         # nocertmsg, cv_*
 
 
+def _name_matches(pattern, host):
+    """RFC 6125 as the property reads it: case-insensitive, one trailing dot ignored, same number of labels, only the
+    left-most label may be the wildcard '*' and it stands for exactly one label"""
+    p, h = pattern.lower(), host.lower()
+    if p.endswith("."):
+        p = p[:-1]
+    if h.endswith("."):
+        h = h[:-1]
+    if not p or not h:
+        return False
+    pl, hl = p.split("."), h.split(".")
+    if len(pl) != len(hl):
+        return False
+    for i, (a, b) in enumerate(zip(pl, hl)):
+        if i == 0 and a == "*":
+            if b == "":
+                return False
+            continue
+        if a != b:
+            return False
+    return True
+
+
 def nontrivial(f):
     return True
 
@@ -59,6 +82,8 @@ def nontrivial(f):
 def classify(f, io):
     if f[0] == "AM":
         return "AM:" + f[6] + ":" + " ".join(io[:2])
+    if f[0] == "AN":
+        return "AN:" + f[3] + ":" + (io[0] if io else "none")
     return f[0] + ":" + f[3] + ":" + (io[0] if io else "none")
 
 
@@ -82,6 +107,11 @@ def predicate(f, io):
             return False, "server with ClientAuth=%d completed although the client script is an attack (%s)" % (auth, attack)
         if io[0] != "ok" and attack in ("honest_cert",) :
             return False, "control run (honest client with certificate) did not complete"
+        return True, ""
+    if op == "AN":
+        # server-name check: certificates issued by the trusted test CA for <pattern>; the client asks for <servername>
+        if io[0] == "ok" and not _name_matches(f[4], f[5]):
+            return False, "client completed for server name %s although the certificates are only valid for %s" % (f[5], f[4])
         return True, ""
     if op == "AM":
         tampered = f[5] != "none"
